@@ -81,6 +81,7 @@ pub fn plan(prop: &str) -> Vec<PlanItem> {
             l2("S-chan-shared", 200_000, 5_000_000),
             l3("T-chan", 40_000, 2_000_000),
             l3("T-chan-shared", 40_000, 2_000_000),
+            l3o("T-handles", 30_000, 1_500_000, vec![("kind", 3)]),
         ],
         "C11" => vec![
             l1("mpmc", 250_000, 6_000_000),
